@@ -366,3 +366,116 @@ func Absent(items []Item, k int, label string) {
 		}
 	}
 }
+
+// ---- sets over item sequences (C04) ----
+
+func memberForced(items []Item, p int) bool {
+	ok := false
+	for _, it := range items {
+		if it.T == nil {
+			ok = v.Or(ok, Equiv(it.K, p))
+		}
+	}
+	return ok
+}
+
+func among(xs []int, p int) bool {
+	ok := false
+	for _, x := range xs {
+		ok = v.Or(ok, Equiv(x, p))
+	}
+	return ok
+}
+
+// sameThunks: the unexpanded parts of pre and post are the same objects in the same order.
+func sameThunks(pre, post []Item, label string) {
+	var a, b []any
+	for _, it := range pre {
+		if it.T != nil {
+			a = append(a, it.T)
+		}
+	}
+	for _, it := range post {
+		if it.T != nil {
+			b = append(b, it.T)
+		}
+	}
+	v.Assert(len(a) == len(b), label+"-untouched-part-lost-or-duplicated")
+	if len(a) == len(b) {
+		for i := range a {
+			v.Assert(a[i] == b[i], label+"-untouched-part-moved")
+		}
+	}
+}
+
+// SetAdd: members(post) = members(pre) + xs, for every probe element at once (the probe is a fresh symbolic value).
+func SetAdd(pre, post []Item, xs []int, label string) {
+	sameThunks(pre, post, label)
+	for _, x := range xs {
+		Absent(post, x, label+"-argument-may-be-in-unexpanded-part")
+	}
+	p := v.Int("probe")
+	v.Assert(memberForced(post, p) == v.Or(memberForced(pre, p), among(xs, p)), label)
+}
+
+// SetRemove: members(post) = members(pre) - xs.
+func SetRemove(pre, post []Item, xs []int, label string) {
+	sameThunks(pre, post, label)
+	for _, x := range xs {
+		Absent(post, x, label+"-argument-may-be-in-unexpanded-part")
+	}
+	p := v.Int("probe")
+	v.Assert(memberForced(post, p) == v.And(memberForced(pre, p), !among(xs, p)), label)
+}
+
+// SetContains: got = every x is a member. A "false" answer needs an argument that is provably absent
+// (not among the forced items and outside every unexpanded part).
+func SetContains(items []Item, xs []int, got bool, label string) {
+	if got {
+		exp := true
+		for _, x := range xs {
+			exp = v.And(exp, memberForced(items, x))
+		}
+		v.Assert(exp, label+"-true-but-missing")
+		return
+	}
+	missing := false
+	for _, x := range xs {
+		absent := !memberForced(items, x)
+		for _, it := range items {
+			if it.T != nil {
+				absent = v.And(absent, it.T.(Thunk).VOutside(true, x, true, x))
+			}
+		}
+		missing = v.Or(missing, absent)
+	}
+	v.Assert(missing, label+"-false-but-all-present")
+}
+
+// Distinct: no two forced items are equivalent (each member listed once).
+func Distinct(keys []int, label string) {
+	for i := 0; i < len(keys); i++ {
+		for j := i + 1; j < len(keys); j++ {
+			v.Assert(!Equiv(keys[i], keys[j]), label)
+		}
+	}
+}
+
+// Args returns k <= K arbitrary integers (k is case-split).
+func Args(tag string) []int {
+	k := v.Split(v.IntIn("k", 0, v.CfgOr("K", 2)), 0, 8)
+	xs := make([]int, k)
+	for j := 0; j < k; j++ {
+		xs[j] = v.Int(tag)
+	}
+	return xs
+}
+
+// KeysOf wraps plain keys as items.
+func KeysOf(keys []int) []Item {
+	out := make([]Item, len(keys))
+	for i, k := range keys {
+		out[i] = Item{K: k}
+	}
+	return out
+}
